@@ -24,7 +24,7 @@ RULE = (
 ASSUMPTIONS = ["dihedral / alternating conventions for n <= 2 as stated in the library's docstrings", "Greene brute force up to length 7 (8 thorough)"]
 REQUIRED = ["calls.Perm.stack_sort", "calls.Perm.pop_stack_sort", "calls.Perm.bubble_sort", "calls.Perm.quick_sort", "calls.Perm.west_2_stack_sortable",
             "calls.Bijections.simion_and_schmidt", "calls.pp.baxter", "calls.pp.simsun", "calls.pp.yt_perm_avoids_22", "ss.bijection_levels",
-            "ss.rejected", "characterisation.checked", "derived.images", "faults.injected"]
+            "ss.rejected", "characterisation.checked", "derived.images", "faults.injected", "dihedral.affine_near_members"]
 MIN_NONTRIVIAL = 3000
 CTX = None
 MON = None
@@ -240,6 +240,21 @@ def run(ctx, spec):
         lengths = rng.sample(range(3, 80), 24)
         for n in lengths:
             chk_dihedral_fault(ctx, n, rng.choice([1, 2, 3, 4, 6, 9, 15, 30, 60]))
+        # near members of the dihedral groups: every affine map i -> a + d*i (mod n), d a unit (the group itself is d = +-1),
+        # and group members with two entries exchanged
+        import math
+        for n in range(3, 25 if ctx.tier == "quick" else 41):
+            for d in range(1, n):
+                if math.gcd(d, n) != 1:
+                    continue
+                for a in range(n) if n <= 16 else rng.sample(range(n), 4):
+                    m = [(a + d * i) % n for i in range(n)]
+                    PP.dihedral(Perm(m))  # judged by the monitor
+                    ctx.count("dihedral.affine_near_members")
+                    if d in (1, n - 1) and n > 3:
+                        i, j = rng.sample(range(n), 2)
+                        m[i], m[j] = m[j], m[i]
+                        PP.dihedral(Perm(m))
         ctx.sample({"simion_schmidt_levels": list(range(spec["nmax"] + 2))})
     else:
         for _ in range(spec["count"]):
